@@ -126,18 +126,23 @@ class ThreadWorker(Worker):
     # Children-side
     def _run(self):
         try:
-            assert self._tid != gettid()
-            self._tid = gettid()
-            self._ident = threading.get_ident()
-            if self._set_names:
-                setthreadtitle(self.name, self)
+            try:
+                assert self._tid != gettid()
+                self._tid = gettid()
+                self._ident = threading.get_ident()
+                if self._set_names:
+                    setthreadtitle(self.name, self)
 
-            self._startup_sync.set()
-            assert self.is_child
-            self._init_child()
-            self._result = (True, self.do_work())
+                self._startup_sync.set()
+                assert self.is_child
+                self._init_child()
+                self._result = (True, self.do_work())
+            except BaseException as e:
+                logger.exception('Exception occurred while running the main function')
+                self._result = (False, e)
         except BaseException as e:
-            logger.exception('Exception occurred while running the main function')
+            # a request to terminate which arrives while the failure above is being recorded
+            # is what ends the child: report it instead of losing both
             self._result = (False, e)
         finally:
             # whatever happened, never leave the constructor waiting for a child which is gone
